@@ -231,6 +231,24 @@ fn attempt(rng: &mut Rng, theme: usize) -> Option<Model> {
                 let k = [KNIGHT, BISHOP, ROOK, QUEEN, PAWN, BISHOP][rng.below(6) as usize];
                 put(&mut m, s, k, c);
             }
+            // the other side's king right next to a castling rook (king takes the rook that carries a right)
+            if rng.chance(1, 3) {
+                let c = rng.below(2) as u8;
+                let back = if c == WHITE { 0 } else { 7 };
+                let rooks: Vec<u8> = (0..8).filter_map(|f| mk(f, back)).filter(|&q| m.sq[q as usize] == Some((ROOK, c)) && m.rights[c as usize].iter().any(|r| *r == Some(file_of(q) as u8))).collect();
+                if !rooks.is_empty() {
+                    let rq = *rng.pick(&rooks);
+                    let d = [(1i8, 0i8), (-1, 0), (0, 1), (0, -1), (1, 1), (-1, 1), (1, -1), (-1, -1)][rng.below(8) as usize];
+                    if let Some(ks) = mk(file_of(rq) + d.0, rank_of(rq) + d.1) {
+                        if m.sq[ks as usize].is_none() {
+                            let old = m.king_sq(c ^ 1).unwrap();
+                            m.sq[old as usize] = None;
+                            m.rights[(c ^ 1) as usize] = [None, None];
+                            m.sq[ks as usize] = Some((KING, c ^ 1));
+                        }
+                    }
+                }
+            }
             // an enemy slider on the back rank itself (the "rook shields the king" case)
             if rng.chance(1, 2) {
                 let c = rng.below(2) as u8;
